@@ -32,27 +32,29 @@ import (
 var run *ev.Run
 
 type Case struct {
-	I        int
-	Len      int
-	Alg      string
-	Source   string // seek noseek dribble dribble-seek
-	Decl     string // none correct wrong-digest short long size-only digest-only
-	Chunk    int64
-	Max      int64 // host.BlobMax
-	ChunkMin int64
-	Limit    int64 // reg.WithBlobLimit (0 = default)
-	Via      string // how the client chunk size is configured: host (per-host setting) or client (client-wide setting)
-	Enforce  bool   // the server enforces its advertised minimum on non-final chunks
-	Mount    string
-	Anon     bool // blob pre-exists in another repository and the registry grants anonymous mounts
-	Ack      []int
-	AckStyle string
-	Early201 bool
-	Relocate string
-	Refuse   bool // monolithic PUT refused
-	FaultAt  int
-	Fault    string
-	Dir      bool // OCI layout destination
+	I          int
+	Len        int
+	Alg        string
+	Source     string // seek noseek dribble dribble-seek
+	Decl       string // none correct wrong-digest short long size-only digest-only
+	Chunk      int64
+	Max        int64 // host.BlobMax
+	ChunkMin   int64
+	Limit      int64  // reg.WithBlobLimit (0 = default)
+	Via        string // how the client chunk size is configured: host (per-host setting) or client (client-wide setting)
+	Enforce    bool   // the server enforces its advertised minimum on non-final chunks
+	Mount      string
+	Anon       bool // blob pre-exists in another repository and the registry grants anonymous mounts
+	Ack        []int
+	AckStyle   string
+	MaxAccept  int
+	EmptyRange string
+	Early201   bool
+	Relocate   string
+	Refuse     bool // monolithic PUT refused
+	FaultAt    int
+	Fault      string
+	Dir        bool // OCI layout destination
 }
 
 func (c Case) key() string {
@@ -68,7 +70,7 @@ func (c Case) key() string {
 	default:
 		lenClass = ">c"
 	}
-	return fmt.Sprintf("%s|%s|%s|%s|c%d|max%d|min%d|%s/%t|ack%d%s|e%t|%s|rf%t|f%s|dir%t|%s|enf%t", lenClass, c.Alg, c.Source, c.Decl, c.Chunk, sign(c.Max), sign(c.ChunkMin), c.Mount, c.Anon, len(c.Ack), c.AckStyle, c.Early201, c.Relocate, c.Refuse, c.Fault, c.Dir, c.Via, c.Enforce)
+	return fmt.Sprintf("%s|%s|%s|%s|c%d|max%d|min%d|%s/%t|ack%d%s|ma%t|er%s|e%t|%s|rf%t|f%s|dir%t|%s|enf%t", lenClass, c.Alg, c.Source, c.Decl, c.Chunk, sign(c.Max), sign(c.ChunkMin), c.Mount, c.Anon, len(c.Ack), c.AckStyle, c.MaxAccept > 0, c.EmptyRange, c.Early201, c.Relocate, c.Refuse, c.Fault, c.Dir, c.Via, c.Enforce)
 }
 
 func sign(v int64) int {
@@ -195,10 +197,14 @@ func genCase(rng *rand.Rand, i int) Case {
 		c.Anon = true
 	}
 	if rng.Intn(3) == 0 {
+		// a registry that reports an empty session as "0--1" (olareg) leaves no ambiguity about the first chunk
+		c.EmptyRange = "0--1"
+	}
+	if rng.Intn(3) == 0 {
 		n := 1 + rng.Intn(4)
 		for k := 0; k < n; k++ {
 			a := rng.Intn(int(c.Chunk) + 1) // 0..chunk bytes accepted
-			if k == 0 && a == 0 {
+			if k == 0 && a == 0 && c.EmptyRange == "" {
 				a = 1 // "Range: 0-0" cannot express "nothing received" (spec ambiguity); not generated
 			}
 			if rng.Intn(3) == 0 {
@@ -206,6 +212,11 @@ func genCase(rng *rand.Rand, i int) Case {
 			}
 			c.Ack = append(c.Ack, a)
 		}
+		c.AckStyle = []string{"202", "416"}[rng.Intn(2)]
+	} else if rng.Intn(8) == 0 && c.Chunk >= 16 {
+		// a registry that takes only a small, fixed amount per request: long runs of partial acknowledgements,
+		// every one of which makes progress
+		c.MaxAccept = int(c.Chunk) / (12 + rng.Intn(6))
 		c.AckStyle = []string{"202", "416"}[rng.Intn(2)]
 	}
 	c.Early201 = rng.Intn(8) == 0
@@ -217,7 +228,7 @@ func genCase(rng *rand.Rand, i int) Case {
 	}
 	c.Dir = rng.Intn(7) == 0
 	// a server that enforces its minimum does not itself cut chunks short
-	c.Enforce = c.ChunkMin > 0 && len(c.Ack) == 0 && c.FaultAt == 0 && rng.Intn(2) == 0
+	c.Enforce = c.ChunkMin > 0 && len(c.Ack) == 0 && c.MaxAccept == 0 && c.FaultAt == 0 && rng.Intn(2) == 0
 	return c
 }
 
@@ -318,6 +329,8 @@ func runCase(c Case) {
 	h.Cfg.EnforceChunkMin = c.Enforce
 	h.Cfg.AckPlan = c.Ack
 	h.Cfg.AckStyle = c.AckStyle
+	h.Cfg.MaxAccept = c.MaxAccept
+	h.Cfg.EmptyRange = c.EmptyRange
 	h.Cfg.Early201 = c.Early201
 	h.Cfg.Relocate = c.Relocate
 	h.Cfg.RefuseMonoPut = c.Refuse
@@ -368,7 +381,7 @@ func runCase(c Case) {
 		}
 	}
 	for _, e := range evs {
-		if must && e.Fault != "" && e.Kind == "upload-patch" && strings.HasPrefix(e.ContentRange, "0-") {
+		if must && e.Fault != "" && e.Kind == "upload-patch" && strings.HasPrefix(e.ContentRange, "0-") && c.EmptyRange == "" {
 			// the very first chunk failed before anything was stored: the status reply "Range: 0-0" cannot tell
 			// "nothing received" from "one byte received" (spec ambiguity), so the client may legitimately fail
 			must, reason = false, "first chunk lost, upload status ambiguous"
@@ -429,6 +442,8 @@ func judge(c Case, decl, got descriptor.Descriptor, err error, actual string, co
 			switch {
 			case c.FaultAt > 0 && w != nil:
 				cls = "transient-" + strings.ReplaceAll(c.Fault, ":", "")
+			case c.MaxAccept > 0:
+				cls = "small-accepts-" + c.AckStyle
 			case len(c.Ack) > 0:
 				cls = "partial-ack-" + c.AckStyle
 			case c.Refuse:
